@@ -208,11 +208,15 @@ RepayLoanI(s, j, cause) ==
 (* ------------------------------ fees ------------------------------------ *)
 \* total fee due (quote units, rounded up) for a cumulative traded quote amount tq
 FeeDue(p, tq) ==
-  IF C.feeMode = "none" THEN 0
+  IF C.feeMode \in {"none", "base"} THEN 0
   ELSE \* max(tq * feeN/feeD, minFee) with minFee = minFeeN*QS/minFeeD units, then ROUND_UP
        LET a == CeilDiv(tq * C.feeN, C.feeD)
            m == CeilDiv(C.minFeeN * QS(p), C.minFeeD)
        IN Max2(a, m)
+\* A user-defined FeeStrategy that charges in the BASE symbol (C.feeMode = "base"): feeN/feeD of the base amount of every
+\* fill, rounded up to the base precision by OrderManager._round_fees.  Liquidity is consumed by the traded amount, not by
+\* the amount net of fees; a sell reserves amount + estimated fee of the base symbol.
+FeeB(base) == IF C.feeMode = "base" THEN CeilDiv(base * C.feeN, C.feeD) ELSE 0
 \* Percentage.calculate_fees + _round_fees: what is still to be charged given what was charged
 FeeDelta(p, tqBefore, charged, dq) == Max2(0, FeeDue(p, tqBefore + dq) - charged)
 
@@ -227,9 +231,10 @@ Required(s, r) ==
       ep == EstPrice(s, r)
       q  == IF ep > 0 THEN RHE(r.amount * ep, PD(p)) ELSE 0      \* rounded estimated quote amount
       f  == IF q > 0 THEN FeeDelta(p, 0, 0, q) ELSE 0
+      fb == IF q > 0 THEN FeeB(r.amount) ELSE 0                   \* fees are only estimated when a price is known
   IN IF r.op = "buy"
-     THEN Only(QuoteOf(p), IF q > 0 THEN q + f ELSE 0)
-     ELSE Plus(Only(BaseOf(p), r.amount), Only(QuoteOf(p), Max2(0, f - q)))
+     THEN Plus(Only(QuoteOf(p), IF q > 0 THEN q + f ELSE 0), Only(BaseOf(p), Max2(0, fb - r.amount)))
+     ELSE Plus(Only(BaseOf(p), r.amount + fb), Only(QuoteOf(p), Max2(0, f - q)))
 
 ReqValid(r) == /\ r.amount > 0 /\ ~r.offgrid
                \* prices of a request must be on the quote grid (a multiple of pm price units)
@@ -251,7 +256,7 @@ CreateOrder(s, r) ==
       shortAtStart == [x \in Syms |-> Max2(0, req[x] - Avail(s, x))]
       order(loanSet) ==
         [type |-> r.type, op |-> r.op, pair |-> p, amount |-> r.amount, limit |-> r.limit, stop |-> r.stop,
-         filled |-> 0, qfilled |-> 0, fee |-> 0, state |-> "open", ab |-> r.ab, ar |-> r.ar, loans |-> loanSet,
+         filled |-> 0, qfilled |-> 0, fee |-> 0, feeB |-> 0, state |-> "open", ab |-> r.ab, ar |-> r.ar, loans |-> loanSet,
          holdRem |-> req, stopHit |-> FALSE, at |-> s.clock, nfills |-> 0, lastFill |-> 0]
       accept(st, loanSet) ==
         LET st2 == [st EXCEPT !.orders = Append(@, order(loanSet)), !.openIdx = Append(@, Len(st.orders) + 1)] IN
@@ -375,16 +380,17 @@ ProcessOrder(s, i, bar, usedN, hint) ==
   IN IF f.amtN = 0 \/ base = 0 \/ quote = 0 THEN [s |-> notFilled(sHit), usedN |-> usedN]
      ELSE
      LET fee   == FeeDelta(p, o.qfilled, o.fee, quote)
+         feeB  == FeeB(base)
          sg    == Sign(o.op)
          dQuote == -sg * quote - fee                             \* signed change of the quote balance
-         db    == Plus(Only(BaseOf(p), sg * base), Only(QuoteOf(p), dQuote))
+         db    == Plus(Only(BaseOf(p), sg * base - feeB), Only(QuoteOf(p), dQuote))
          \* release min(spent, remaining) of the reservation for every symbol the fill debits
          rel   == [x \in Syms |-> IF db[x] < 0 THEN Min2(-db[x], o.holdRem[x]) ELSE 0]
          u     == Update(sHit, db, Neg(rel), D0)
      IN IF ~u.ok THEN [s |-> notFilled(sHit), usedN |-> usedN]
         ELSE LET filled2 == o.filled + base
                  s1 == [u.s EXCEPT !.orders[i].filled = filled2, !.orders[i].qfilled = @ + quote,
-                                   !.orders[i].fee = @ + fee, !.orders[i].nfills = @ + 1,
+                                   !.orders[i].fee = @ + fee, !.orders[i].feeB = @ + feeB, !.orders[i].nfills = @ + 1,
                                    !.orders[i].lastFill = sHit.clock,
                                    !.orders[i].holdRem = [x \in Syms |-> o.holdRem[x] - rel[x]],
                                    !.orders[i].state = IF filled2 >= o.amount THEN "completed" ELSE "open"]
@@ -430,7 +436,7 @@ SumLoans(s, n, F(_))  == FoldSeq(LAMBDA l, acc : acc + F(l), 0, s.loans)
 Total(s, x) == s.bal[x] - s.bor[x]         \* = available + hold - borrowed
 \* signed effect of order o on symbol x: fills and fees
 OrderEffect(o, x) ==
-  (IF x = BaseOf(o.pair) THEN Sign(o.op) * o.filled ELSE 0)
+  (IF x = BaseOf(o.pair) THEN Sign(o.op) * o.filled - o.feeB ELSE 0)
   + (IF x = QuoteOf(o.pair) THEN -Sign(o.op) * o.qfilled - o.fee ELSE 0)
 
 \* C01
@@ -462,6 +468,8 @@ Inv_C09_TotalFee(s) ==
   \A i \in 1..Len(s.orders) : LET o == s.orders[i] IN
      /\ o.fee >= 0
      /\ o.fee = IF o.qfilled = 0 THEN 0 ELSE FeeDue(o.pair, o.qfilled)
+     \* base-symbol fees (user-defined strategy): at least the configured share of what was traded, nothing otherwise
+     /\ (IF C.feeMode = "base" THEN o.feeB * C.feeD >= o.filled * C.feeN ELSE o.feeB = 0)
 \* C10: the margin requirement, recomputed independently of MarginCheck (no interest term, no level)
 \* (a borrowed symbol that cannot be valued at all does not meet any requirement: the request must fail)
 MarginRequirementMet(s) ==
